@@ -321,5 +321,5 @@ InvTreeOf == TreeRoundTrip(BuildTree(IdxPairs(st.idx)))
 Emit == PrintT(ToJson([k |-> "E", path |-> hist',
                        exp |-> [res |-> last'.res, idxp |-> IdxPaths(st'.idx), wt |-> st'.wt,
                                 br |-> Branches(st'), head |-> st'.head.branch, nlog |-> Len(st'.hlog)]]))
-LevelBound(n) == TLCGet("level") < n
+LevelBound(n) == Len(hist) < n      \* depth bound on the representative path (independent of the number of workers)
 =============================================================================
